@@ -129,6 +129,11 @@ DatumsWitnessed(T) == T.plutus => Range(T.inDatumHashes) \subseteq Range(T.witDa
 RedeemersPointAtScripts(T) ==
     /\ T.redeemers # <<>> => T.plutus
     /\ \A i \in 1..Len(T.redeemers) : T.redeemers[i].tag = "Spend" => T.redeemers[i].idx < DistinctIns(T)
+    \* a Reward redeemer points at a script-credential withdrawal; T.withdrawals is listed in the ledger's order
+    \* of reward accounts (network, script credentials before key credentials, credential hash)
+    /\ \A i \in 1..Len(T.redeemers) : T.redeemers[i].tag = "Reward" =>
+            /\ T.redeemers[i].idx < Len(T.withdrawals)
+            /\ T.withdrawals[T.redeemers[i].idx + 1].script
 \* "The auxiliary data of the transaction is valid"
 AuxDataHashMatches(T) == T.auxDeclared = T.auxActual
 \* "The script data integrity hash matches the hash of the redeemers, languages and datums": it is present
